@@ -468,6 +468,8 @@ class HeapMixin:
         if key is None:
             self.raise_builtin('KeyError', key, node=node)
         k = zint(self.int_of(key))
+        if not any(z3.eq(k, q) for q in self.bound_vars):
+            self.touch_index(k)
         if self.spec_mode:
             pass        # specification text guards the access (k in map) itself
         elif not self.branch(z3.Select(m.dom, k), 'inmap@%s' % getattr(node, 'lineno', '?')):
